@@ -13,7 +13,7 @@ From Coq Require Import String List Bool ZArith.
 From GW Require Import Base.Res Base.GoStr Base.Json Gql.Syntax Gql.Spec Gw.Points Gw.FedCheck
      Gw.Locate Gw.Plan Proofs.CodecProofs Proofs.PointsProofs Proofs.FindProofs Proofs.PlanProofs Proofs.PlanCount Proofs.StitchSound Proofs.JoinSound Proofs.GroupSound Proofs.StepJoin Proofs.StepPoints
      Proofs.StepScrub Proofs.DeepPoints Proofs.ExactJoin Proofs.FedCanonical Proofs.PlanCanonical Proofs.FedTheorem
-     Proofs.DeepScrub Proofs.FlattenPath Proofs.DeepFlatten Proofs.SingleService Proofs.FedTheoremObj Proofs.FedTheorem2
+     Proofs.DeepScrub Proofs.FlattenPath Proofs.DeepFlatten Proofs.SingleService Proofs.FedTheoremObj Proofs.FedTheorem2 Proofs.FedTheoremCor
      Gw.Locate Gw.Plan Gw.Scrub Gw.Fed.
 Import ListNotations.
 Open Scope string_scope.
@@ -391,3 +391,27 @@ Proof.
   exact (gateway_answers_canonical_join_nested prios urls ft sh w vars Hw rootT T t ka kn args l1 l2 nn locA locB os client target n).
 Qed.
 Print Assumptions C01_gateway_answers_the_canonical_join_with_nested_selections.
+
+(* The same with the routing premises reduced by the chooser's idempotence (C20): that the root
+   field and l2 stay where the chooser put them need not be assumed. *)
+Theorem C01_gateway_answers_the_canonical_join_as_routed :
+  forall prios urls ft sh w vars, atomic_world w vars ->
+  forall rootT T t ka kn args l1 l2 nn locA locB os client target n,
+  ka <> "" -> clean_key ka ->
+  locA <> "" -> locA <> locB ->
+  choose prios urls rootT kn "" = Ok locA ->
+  assoc (url_key rootT kn) ft = Some T ->
+  Forall (at1 prios urls ft locA n T) l1 -> Forall (at_loc prios urls T locA locB) l2 -> l2 <> [] ->
+  shape_of (rootT ++ "." ++ kn) sh = Some (t, (true, nn)) ->
+  good (l1 ++ [id_sel]) -> good l2 -> compat (l1 ++ [id_sel]) l2 ->
+  ~ In "id" (map key_of l2) -> no_id_var l2 ->
+  descend [ka] client = Ok target -> natural_id target = false ->
+  resolve w vars None rootT (to_c (Field ka kn args [] (l1 ++ [id_sel]))) = FList (map (fun o => FRef (b_id o)) os) ->
+  Forall (fun o => find_obj (b_id o) (w_objs w) = Some o) os ->
+  (Z.of_nat (length os) <= int64_max)%Z ->
+  Forall (fun o => type_matches w T (b_type o) = true) os ->
+  Forall (fun o => flat_at w vars o l2) os ->
+  gateway_answer (S (S (S n))) prios urls ft sh w vars rootT [Field ka kn args [] (l1 ++ l2)] client =
+  Ok (exec (S (S (S n))) w [] vars None rootT [Field ka kn args [] (l1 ++ l2)]).
+Proof. exact gateway_answers_canonical_join_routed. Qed.
+Print Assumptions C01_gateway_answers_the_canonical_join_as_routed.
